@@ -63,6 +63,7 @@ def proj_f(c, lines):
     return [l for l in lines if l.startswith(('F ', 'Q '))] + anomalies(lines)
 
 def run_c01(res, rng):
+    G.ALLOW_MT0 = False
     cases = corpus_cases('C01') + enc_cases(rng, res.tier, 'rt')
     # K lines: N carries hook numbers too; for C01 only the packet count matters
     def proj(c, lines):
@@ -76,6 +77,7 @@ def run_c01(res, rng):
     res.cov['samples'] = [sample_case(c) for c in cases[:2] + cases[-1:]]
 
 def run_c07(res, rng):
+    G.ALLOW_MT0 = True
     cases = corpus_cases('C07') + enc_cases(rng, res.tier, 'wf')
     # empty batches and min > used
     for i, (mn, mx) in enumerate([(0, 25), (64, 1500), (100, 100), (0, 65559)]):
@@ -95,6 +97,7 @@ def run_c07(res, rng):
     res.cov['samples'] = [sample_case(c) for c in cases[:2] + cases[-1:]]
 
 def run_c08(res, rng):
+    G.ALLOW_MT0 = True
     cases = corpus_cases('C08') + enc_cases(rng, res.tier, 'pk')
     def proj(c, lines):
         return G.structure(lines) + anomalies(lines)
@@ -189,6 +192,7 @@ def judge_c09(case, lines):
     return None
 
 def run_c09(res, rng):
+    G.ALLOW_MT0 = True
     n = 300 if res.tier == 'quick' else 15000
     cases = corpus_cases('C09') + [gen_history(rng.fork('h%d' % i), 'h%d' % i, rng.fork('n%d' % i).range(1, 30)) for i in range(n)]
     cases.append(gen_history(rng.fork('wrap'), 'wrap', 0, wrap=True))
@@ -274,6 +278,7 @@ def judge_c10(case, lines):
     return None
 
 def run_c10(res, rng):
+    G.ALLOW_MT0 = True
     n = 800 if res.tier == 'quick' else 30000
     cases = corpus_cases('C10') + [gen_c10(rng.fork('c%d' % i), 'c%d' % i, res.tier == 'thorough') for i in range(n)]
     for i, h in enumerate([65533, 65534, 65530] if res.tier == 'quick' else [65535, 65534, 65533, 65532, 65531, 65530, 65529, 65520, 65500, 131069]):
